@@ -12,7 +12,7 @@ TRUSTED = {
     "cpython-unicode": "PyUnicode_1BYTE_DATA/PyUnicode_DATA return the code units of the str; inputs are ASCII "
                        "(PyUnicode_KIND == 1BYTE, compact ASCII) — non-ASCII input raises ValueError and is outside the claim",
     "dnaio-record": "dnaio.SequenceRecord: r[a:b] is a fresh record with the same name, sequence[a:b] and "
-                    "qualities[a:b] (or None), len(r) == len(r.sequence); attribute assignment sets the field",
+                    "qualities[a:b] (or None), len(r) == len(r.sequence) (so an empty record is falsy); attribute assignment sets the field",
 }
 
 # ---------------------------------------------------------------- CPython C-API as used by the .pyx files
@@ -99,4 +99,7 @@ _install0 = install
 
 def install(world):
     _install0(world)
+    from pyvc import values
+    # dnaio.SequenceRecord defines __len__: an empty record is falsy
+    values.TRUTHY_HOOKS["SequenceRecord"] = lambda r: r.fields["sequence"].n > 0
     world.handlers[("SequenceRecord", "reverse_complement")] = rec_revcomp
